@@ -24,7 +24,8 @@ EXPLANATION = (
     " (R9) written-iff-present for the quality score array: every use of the QUALITY_SCORES_ARE_STORED_AS_ARRAY constant in the record converter lies behind a switch on quality_scores().is_empty() (violated today: known finding F31, `QUAL *` records written by noodles do not read back)."
     " (R10) declared raw sizes: the uncompressed_size a writer Block is built with derives from a len() that is not downstream of a codec encode call (genuine defect F35, repaired: the fqzcomp arm declared the compressed length)."
     " (R11) sentinel vs terminator: the marker written for an unnamed record is free of the terminator of the NUL-terminated name series and is the marker the reader maps back to None (genuine defect F38, repaired). (R12) the predicate that raises the file version to 3.1 names every CRAM 3.1 codec and is asked about every encoder slot of the map (genuine defect F39, repaired)."
-    " (R13) the TLEN sign belongs to the leftmost segment: resolve_mates compares alignment starts before it assigns +TLEN / -TLEN (genuine defect F40, repaired).")
+    " (R13) the TLEN sign belongs to the leftmost segment: resolve_mates compares alignment starts before it assigns +TLEN / -TLEN (genuine defect F40, repaired)."
+    " (R14) declared lengths: itf8_size_of agrees with the number of bytes write_itf8 emits on every one of the 33 bit-length classes of an i32 (A11 bit-class interpreter over the MIR of both; classes using an unmodelled construct are not decided).")
 ASSUMPTIONS = ["flate2 Crc/CrcReader/CrcWriter compute CRC32 of exactly the bytes passed through", "md5 crate",
                "function-stem pairing (read_x <-> write_x) reflects the symmetric structure of the two record codecs (floor-checked)"]
 NOT_DECIDED = ["record equality: feature/CIGAR/base reconstruction, mate resolution, every encoder option x codec",
@@ -253,6 +254,9 @@ def run(ctx):
     ctx.rule("C07.R13", "TLEN sign belongs to the leftmost segment: resolve_mates compares alignment starts before it assigns +TLEN / -TLEN")
     _tlen_sign_rule(ctx)
 
+    ctx.rule("C07.R14", "A11 bit-length classes: itf8_size_of (declared) == bytes emitted by write_itf8, class by class")
+    _itf8_size_rule(ctx)
+
     ctx.rule("C07.R7", "A7 span of a template: the reader recomputes TLEN of in-slice mates from min(start of both segments) and max(END of both "
                        "segments) — each alignment_end() result feeds the maximum")
     ft = ctx.anchor("C07.R7", K + "io::reader::container::slice::calculate_template_length_chunk")
@@ -463,6 +467,34 @@ def _tlen_sign_rule(ctx):
         ctx.violation("C07.R13", "C07.R13/sign-before-comparison/" + key, "a template length is stored on a path that has not compared alignment starts", f.loc(before[0]))
     else:
         ctx.ok("C07.R13", key + " :: %d template length store(s) follow a comparison of alignment starts" % len(stores), "", f.loc(cmps[0]))
+
+
+def _itf8_size_rule(ctx):
+    """declared lengths: itf8_size_of (what Block::size, container length and landmarks are computed from) agrees with write_itf8
+    (what is emitted) on every magnitude class. Both see the value only through shifts, comparisons and leading_zeros, so over the
+    33 bit-length classes of an i32 each is a finite table, computed from the MIR by A11's bit-class interpreter."""
+    from .. import a11
+    fb = ctx.fb
+    fs = ctx.anchor("C07.R14", K + "io::writer::container::block::itf8_size_of")
+    fw = ctx.anchor("C07.R14", K + "io::writer::num::itf8::write_itf8")
+    if fs is None or fw is None:
+        return
+    ts = a11.bit_class_table(fb, fs, 0, 1, "result")
+    tw = a11.bit_class_table(fb, fw, 1, 2, "written")
+    diff = [c for c in range(33) if ts[c] is not a11.UNDECIDED and tw[c] is not a11.UNDECIDED and ts[c] != tw[c]]
+    und = [c for c in range(33) if ts[c] is a11.UNDECIDED or tw[c] is a11.UNDECIDED]
+    if diff:
+        c = diff[0]
+        lo = 0 if c == 0 else (1 << (c - 1))
+        rng = "negative values" if c == 32 else "values %d..=%d" % (lo, (1 << c) - 1)
+        ctx.violation("C07.R14", "C07.R14/itf8-size-table/" + fs.key,
+                      "itf8_size_of declares %s byte(s) for %s (bit length %d) but write_itf8 emits %s: Block::size(), the container length "
+                      "and the landmarks are off by the difference for every block field in that range (classes that differ: %s)" % (
+                          ts[c], rng, c, tw[c], diff), fs.loc())
+    else:
+        ctx.ok("C07.R14", "itf8_size_of == bytes written by write_itf8 on %d of 33 bit-length classes" % (33 - len(und)),
+               "sizes by class: %s%s" % (", ".join("%d:%s" % (c, ts[c]) for c in (0, 7, 8, 14, 15, 21, 22, 28, 29, 32) if ts[c] is not a11.UNDECIDED),
+                                         "; not decided (unmodelled construct): %s" % und if und else ""), fs.loc())
 
 
 def _qs_flag_rule(ctx):
